@@ -17,6 +17,8 @@ def u_energy(ctx, kind, form="const", phase="none"):
         return
     vi, io, ta = ctx.real("vi"), ctx.real("io"), ctx.real("ta")
     ctx.assume(io >= 0)
+    ctx.nice(vi, [-12.0, 12.0, -5.0, 5.0, -20.0, 20.0])
+    ctx.nice(io, [0.5, 0.3, 0.8])
     if kind in spec.LOADS:
         ctx.assume(io == 0)
     ph, conf, active, lval = phase_args(ctx, kind, P, phase)
@@ -90,6 +92,7 @@ def instances(tier):
         forms = ["const"]
         if kind in TABLE_KEY and kind != "PMux":
             forms += ["t1x2"] if tier == "quick" else ["t1x1", "t1x2", "t1x3"]
+            forms += ["opaque"]  # any function of (|io|,|vi|) in the valid range: lookups must agree across the laws
             if tier == "thorough" and kind in ("VLoss", "RectD", "RectM"):
                 forms += ["ct2x2x2"]
         for form in forms:
